@@ -66,7 +66,9 @@ func cmdCorr(repo string, seed uint64, n int) int {
 			}
 			var changed []int
 			for k := range shared {
-				if sha256.Sum256(shared[k]) != c.hash[k] {
+				// byte comparison with the pristine copy (exact, and cheaper than re-hashing after every op;
+				// the concurrent rounds use SHA-256)
+				if !bytes.Equal(shared[k], c.pristine[k]) {
 					changed = append(changed, k)
 				}
 			}
